@@ -67,6 +67,20 @@ def plan(tier, seed):
                    for s in ("consistent", "swapped-first-two", "swapped-later", "duplicate", "wrong-cell", "last-step-moved", "two-steps-same-geometry")])
     import itertools
 
+    # magnetic cells: every arrangement of two species over up to 6 sites (up to 5 in the quick tier), collinear and non-collinear moments
+    mg = []
+    for n in range(2, 6 if tier == "quick" else 7):
+        for pat in itertools.product(("Fe", "O"), repeat=n):
+            if pat[0] != "Fe" or len(set(pat)) < 2:
+                continue
+            for calc in ("vasp", "qe"):
+                for dim in (1, 3):
+                    mg.append({"kind": "magmom", "calc": calc, "symbols": list(pat), "dim": dim})
+    for pat in (["Fe", "O", "Ni", "O", "Fe", "Ni"], ["Ni", "Fe", "O", "Fe", "Ni", "O"], ["O", "Ni", "Fe", "Fe", "O", "Ni", "Fe"]):
+        for calc in ("vasp", "qe"):
+            for dim in (1, 3):
+                mg.append({"kind": "magmom", "calc": calc, "symbols": pat, "dim": dim})
+    groups += [mg[k:k + 40] for k in range(0, len(mg), 40)]
     from vtk import forcefiles as FF
 
     ff = []
@@ -360,6 +374,25 @@ def roundtrip(itf, cell, td, tag):
             got, _ = CALC.read_crystal_structure(fn, interface_mode=itf)
     except SystemExit:
         return None, "%s reader calls sys.exit on the written fragment" % itf
+    if itf == "abinit":
+        # the reader also has to understand what users write: the same crystal through acell x scalecart x rprim (ABINIT:
+        # rprimd(i,j) = scalecart(i) * rprim(i,j) * acell(j), i = Cartesian component, j = vector) with Cartesian positions
+        from phonopy.structure.atoms import symbol_map as _sm
+
+        L = np.asarray(cell.cell)
+        acell = np.array([2.0, 1.0, 1.5])
+        sc = np.array([1.0, 1.3, 0.7])
+        rprim = L / acell[:, None] / sc[None, :]
+        zs = [_sm[s_] for s_ in syms]
+        txt = "natom %d\nntypat %d\nznucl %s\ntypat %s\n" % (len(cell), len(syms), " ".join(map(str, zs)), " ".join(str(syms.index(s_) + 1) for s_ in cell.symbols))
+        txt += "acell %s\nscalecart %s\nrprim\n" % (" ".join("%.15f" % x for x in acell), " ".join("%.15f" % x for x in sc))
+        txt += "".join("  %.15f %.15f %.15f\n" % tuple(v) for v in rprim)
+        txt += "xcart\n" + "".join("  %.15f %.15f %.15f\n" % tuple(v) for v in np.asarray(cell.positions))
+        with open(fn + ".user", "w") as w:
+            w.write(txt)
+        with contextlib.redirect_stdout(buf):
+            rcell, _ = CALC.read_crystal_structure(fn + ".user", interface_mode="abinit")
+        return (got, rcell), None
     return got, None
 
 
@@ -663,10 +696,65 @@ def run_forcefile(case, seed):
     return dict(ok=True, nontrivial=nontriv, transitions=2, outcome="ok:forcefile:" + ("refused-truncated" if case["short"] else calc))
 
 
+def run_magmom(case, seed):
+    """Magnetic cell written for a calculator: the moment listed k-th in MAGMOM belongs to the atom written k-th in the structure file
+    (found by its position, independently of any index bookkeeping)."""
+    from phonopy.interface import calculator as CALC
+    from phonopy.structure.atoms import PhonopyAtoms
+
+    calc, symbols = case["calc"], case["symbols"]
+    n = len(symbols)
+    tri = [[5.2, 0, 0], [0.7, 5.8, 0], [1.1, -0.8, 6.3]]
+    pos = np.array([[(i + 1.0) / (n + 2), ((3 * i + 1) % (n + 3)) / (n + 3.0), ((5 * i + 2) % (n + 4)) / (n + 4.0)] for i in range(n)])
+    mags = np.array([0.5 + i for i in range(n)]) if case["dim"] == 1 else np.array([[0.5 + i, -0.25 * i, 10.0 + i] for i in range(n)])
+    cell = PhonopyAtoms(symbols=symbols, cell=tri, scaled_positions=pos, magnetic_moments=mags)
+    tag = "%s/%s" % (calc, "collinear" if case["dim"] == 1 else "non-collinear")
+    grouped = stable_grouping(symbols) == list(range(n))
+    syms = [s_ for k_, s_ in enumerate(symbols) if s_ not in symbols[:k_]]
+    with tempfile.TemporaryDirectory(prefix="c17m_") as td:
+        cwd = os.getcwd()
+        os.chdir(td)
+        try:
+            if calc == "vasp":
+                phx.quiet(CALC.write_supercells_with_displacements, "vasp", cell, [cell])
+                from phonopy.interface.vasp import read_vasp
+
+                got = read_vasp("SPOSCAR")
+            else:
+                phx.quiet(CALC.write_supercells_with_displacements, "qe", cell, [cell], optional_structure_info=("x", {s_: s_ + ".UPF" for s_ in syms}))
+                from phonopy.interface.qe import read_pwscf
+
+                body = open("supercell.in").read()
+                with open("supercell_full.in", "w") as w:  # phonopy writes the structure cards only; the namelists are the user's
+                    w.write(HEAD_QE % (n, len(syms)) + body)
+                got = read_pwscf("supercell_full.in")[0]
+            if not os.path.exists("MAGMOM"):
+                return dict(ok=False, sig="C17/magmom/missing/" + tag, nontrivial=not grouped, msg="%s %s: no MAGMOM file written for a magnetic cell" % (calc, symbols))
+            txt = open("MAGMOM").read()
+        finally:
+            os.chdir(cwd)
+    vals = np.array([float(x) for x in txt.split("=")[1].split()]).reshape(n, -1)
+    gp = np.asarray(got.scaled_positions)
+    for k in range(n):
+        d = pos - gp[k]
+        d -= np.rint(d)
+        j = int(np.argmin(np.abs(d).sum(axis=1)))
+        if np.abs(d[j]).max() > 1e-6 or got.symbols[k] != symbols[j]:
+            return dict(ok=False, sig="C17/magmom/structure/" + tag, nontrivial=not grouped, msg="%s %s: atom %d of the written structure is not an atom of the cell" % (calc, symbols, k))
+        if np.abs(vals[k] - np.atleast_1d(mags[j])).max() > 1e-12:
+            return dict(ok=False, sig="C17/magmom/order/%s/%s" % (tag, "grouped" if grouped else "interleaved"), nontrivial=not grouped,
+                        msg="%s %s: entry %d of MAGMOM is %s, but the atom written at place %d of the structure file (%s at %s) carries %s" % (
+                            calc, "".join(s_[0] for s_ in symbols), k, vals[k].tolist(), k, symbols[j], pos[j].round(3).tolist(), np.atleast_1d(mags[j]).tolist()))
+    return dict(ok=True, nontrivial=not grouped, transitions=2, outcome="ok:magmom:" + calc)
+
+
 def run_group(cases, seed):
     out = []
     for c in cases:
         k = c["kind"]
+        if k == "magmom":
+            out.append(run_magmom(c, seed))
+            continue
         if k == "forcefile":
             out.append(run_forcefile(c, seed))
             continue
